@@ -61,7 +61,7 @@ def isRet : RPc → Bool
   | .ret _ _ _ => true
   | _ => false
 def isLenPc : RPc → Bool
-  | .fast _ _ | .fastX _ | .chkLen _ _ | .dblChk _ => true
+  | .fast _ _ | .fastX _ | .chkLen _ _ | .reChk _ _ _ | .dblChk _ => true
   | _ => false
 def isStorePc (n : Nat) : RPc → Bool
   | .store m _ | .storeX m _ => m == n
